@@ -126,7 +126,7 @@ func exprForms() []form {
 		{name: "heredoc-flush", text: "<<-EOT\n    a\n      b ${v}\n    EOT", heredoc: true, multi: true},
 		{name: "heredoc-directive", text: "<<EOT\n%{ if t ~}\ny\n%{ endif ~}\nEOT", heredoc: true, multi: true},
 		{name: "heredoc-empty", text: "<<EOT\nEOT", heredoc: true, multi: true},
-		{name: "heredoc-for", text: "<<E_1\n%{ for x in l }- ${x}\n%{ endfor }E_1", heredoc: true, multi: true},
+		{name: "heredoc-for", text: "<<E_1\n%{ for x in l }- ${x}\n%{ endfor ~}\nE_1", heredoc: true, multi: true},
 	}
 	return fs
 }
